@@ -180,4 +180,151 @@ theorem siblings_inverse' (t : Tree) (p q : Path) (h : leftSibling t p = some q)
 
 example : rightSibling exT [1] = some [0] ∧ leftSibling exT [0] = some [1] := by decide
 
+/-! ## T7 export numbering -/
+
+theorem numbering_values (t : Tree) :
+    ∃ k, (exportNumbering t).length = k ∧
+      ∀ n ∈ (exportNumbering t).map (·.2), n = 0 ∨ (500 ≤ n ∧ n < 500 + k) := by
+  refine ⟨_, rfl, ?_⟩
+  intro n hn
+  obtain ⟨pn, hpn, rfl⟩ := List.mem_map.1 hn
+  obtain ⟨x, i, hi, rfl⟩ := (mem_exportNumbering t pn).1 hpn
+  have := (List.getElem?_eq_some_iff.1 hi).1
+  rw [exportNumbering_length]
+  dsimp only
+  split
+  · exact Or.inl rfl
+  · exact Or.inr (by omega)
+
+example : exportNumbering exT = [([1], 500), ([], 0)] := by decide
+
+/-- the constituents (nodes with at least one child) of `t`, as the spec `numberingOK` lists them -/
+def constituents (t : Tree) : List Path := (paths t).filter (isCons t)
+
+/-- piece 1: exactly the constituents are numbered, each once -/
+theorem numbering_paths_perm (t : Tree) :
+    ((exportNumbering t).map (·.1)).Perm (constituents t) := by
+  rw [exportNumbering_map_fst]; exact sortedCons_map_fst_perm t
+
+theorem numbering_paths_nodup (t : Tree) : ((exportNumbering t).map (·.1)).Nodup :=
+  (numbering_paths_perm t).symm.nodup ((Lemmas.Nav.paths_nodup t).filter _)
+
+theorem numbering_length (t : Tree) : (exportNumbering t).length = (constituents t).length := by
+  simpa using (numbering_paths_perm t).length_eq
+
+/-- piece 2: the root (and only the root) gets 0 -/
+theorem numbering_root_zero (t : Tree) (pn : Path × Nat) (h : pn ∈ exportNumbering t) :
+    pn.1 = [] ↔ pn.2 = 0 := by
+  obtain ⟨x, i, _, rfl⟩ := (mem_exportNumbering t pn).1 h
+  dsimp only
+  split
+  · simp [*]
+  · simp only [*, false_iff]; omega
+
+/-- piece 3 (needs the root to be a constituent, e.g. `WF`): the numbers used are exactly
+    `0, 500, 501, …, 500 + k - 2`; in particular they are pairwise distinct -/
+theorem numbering_sorted_values (t : Tree) (hc : isCons t [] = true) :
+    sortBy id ((exportNumbering t).map (·.2)) =
+      0 :: List.range' 500 ((exportNumbering t).length - 1) := by
+  obtain ⟨S', r, hS, hr, hS'⟩ := sortedCons_root_last t hc
+  rw [exportNumbering_map_snd, exportNumbering_length, hS, List.zipIdx_append, List.map_append,
+    numbers_of_nonroot S' 0 hS']
+  simp only [List.zipIdx_singleton, List.map_cons, List.map_nil, hr, if_true, List.length_append,
+    List.length_cons, List.length_nil, Nat.add_zero, Nat.zero_add, Nat.add_sub_cancel]
+  exact sortBy_range'_zero _
+
+theorem numbering_values_nodup (t : Tree) (hc : isCons t [] = true) :
+    ((exportNumbering t).map (·.2)).Nodup := by
+  have h := numbering_sorted_values t hc
+  have hp := sortBy_perm id ((exportNumbering t).map (·.2))
+  rw [h] at hp
+  refine hp.nodup ?_
+  refine List.nodup_cons.2 ⟨?_, List.nodup_range'⟩
+  intro h0
+  rw [List.mem_range'_1] at h0
+  omega
+
+/-- piece 4: a non-root constituent is numbered above every constituent below it -/
+theorem numbering_below (t : Tree) (pn qm : Path × Nat) (hp : pn ∈ exportNumbering t)
+    (hq : qm ∈ exportNumbering t) (hpq : properPrefix pn.1 qm.1 = true) (hne : pn.1 ≠ []) :
+    qm.2 < pn.2 := by
+  obtain ⟨x, i, hi, rfl⟩ := (mem_exportNumbering t pn).1 hp
+  obtain ⟨y, j, hj, rfl⟩ := (mem_exportNumbering t qm).1 hq
+  dsimp only at hpq hne ⊢
+  obtain ⟨s, hgs, _, hhs, _⟩ := sortedCons_entry t x (List.mem_of_getElem? hi)
+  obtain ⟨s', hgs', _, hhs', _⟩ := sortedCons_entry t y (List.mem_of_getElem? hj)
+  have hlt := height_lt_of_properPrefix t x.1 y.1 s s' hgs hgs' hpq
+  have hji : j < i := sortedCons_idx_lt t hj hi (Or.inl (by omega))
+  have hy : y.1 ≠ [] := by
+    obtain ⟨r, hr, _⟩ := properPrefix_exists _ _ hpq
+    intro h; rw [h] at hr
+    exact hne (List.append_eq_nil_iff.1 hr.symm).1
+  simp only [hne, hy, if_false]
+  omega
+
+/-- piece 5: numbers increase with the level, and within a level with the leftmost token -/
+theorem numbering_levels (t : Tree) (hne : t.noEmpty = true) (pn qm : Path × Nat)
+    (hp : pn ∈ exportNumbering t) (hq : qm ∈ exportNumbering t) (hp0 : pn.1 ≠ []) (hq0 : qm.1 ≠ []) :
+    let hP := ((t.get? pn.1).map longestDown).getD 0
+    let hQ := ((t.get? qm.1).map longestDown).getD 0
+    let lP := ((t.get? pn.1).map minLeaf).getD 0
+    let lQ := ((t.get? qm.1).map minLeaf).getD 0
+    (hP < hQ → pn.2 < qm.2) ∧ (hP = hQ → lP < lQ → pn.2 < qm.2) := by
+  obtain ⟨x, i, hi, rfl⟩ := (mem_exportNumbering t pn).1 hp
+  obtain ⟨y, j, hj, rfl⟩ := (mem_exportNumbering t qm).1 hq
+  dsimp only at hp0 hq0 ⊢
+  obtain ⟨s, hgs, _, hhs, hls⟩ := sortedCons_entry t x (List.mem_of_getElem? hi)
+  obtain ⟨s', hgs', _, hhs', hls'⟩ := sortedCons_entry t y (List.mem_of_getElem? hj)
+  have e1 := height_longest s (noEmpty_get? _ _ _ hne hgs)
+  have e2 := height_longest s' (noEmpty_get? _ _ _ hne hgs')
+  simp only [hgs, hgs', Option.map_some, Option.getD_some, hp0, hq0, if_false,
+    ← e1, ← e2, ← leftmost_eq_minLeaf, ← hhs, ← hhs', ← hls, ← hls']
+  constructor
+  · intro h
+    have := sortedCons_idx_lt t hi hj (Or.inl h)
+    omega
+  · intro h1 h2
+    have := sortedCons_idx_lt t hi hj (Or.inr ⟨h1, h2⟩)
+    omega
+
+theorem numbering_ok (t : Tree) (h : WF t = true) : numberingOK t (exportNumbering t) = true := by
+  obtain ⟨hc, hne⟩ := WF_root t h
+  have hnonempty : (exportNumbering t).isEmpty = false := by
+    have h1 := numbering_length t
+    have h2 : [] ∈ constituents t := List.mem_filter.2 ⟨nil_mem_paths t, hc⟩
+    have := List.length_pos_of_mem h2
+    cases hh : exportNumbering t with
+    | nil => rw [hh] at h1; simp at h1; omega
+    | cons _ _ => rfl
+  unfold numberingOK
+  simp only [Bool.and_eq_true, List.all_eq_true, beq_iff_eq, decide_eq_true_eq]
+  refine ⟨⟨⟨⟨⟨numbering_length t, ?_⟩, ?_⟩, ?_⟩, ?_⟩, ?_⟩
+  · intro p hp
+    rw [List.contains_iff_mem]
+    exact (numbering_paths_perm t).symm.subset hp
+  · rw [hnonempty]; exact numbering_sorted_values t hc
+  · intro pn hpn
+    have := numbering_root_zero t pn hpn
+    rw [Bool.eq_iff_iff, beq_iff_eq, beq_iff_eq]; exact this
+  · intro pn hpn qm hqm
+    split
+    · rename_i hh
+      simp only [bne_iff_ne, ne_eq] at hh
+      simpa using numbering_below t pn qm hpn hqm hh.1 hh.2
+    · rfl
+  · intro pn hpn qm hqm
+    split
+    · rename_i hh
+      simp only [bne_iff_ne, ne_eq] at hh
+      have := numbering_levels t hne pn qm hpn hqm hh.1.1 hh.1.2
+      dsimp only at this
+      split
+      · rename_i h1; simpa using this.1 h1
+      · split
+        · rename_i h2; simpa using this.2 h2.1 h2.2
+        · rfl
+    · rfl
+
+example : numberingOK exT (exportNumbering exT) = true := by decide
+
 end TT.Props.C19
